@@ -5,7 +5,9 @@ package main
 // prefix of the file (crash points of the non-atomic write), byte- and structure-level corruptions,
 // and probes each loaded cache with data datagrams.
 // Oracle: no panic in GetCache or in the decodes that follow; save -> load gives the same cache;
-// every proper prefix loads as a fresh cache; whatever is loaded contains only templates of the file.
+// every proper prefix loads as a fresh cache; whatever is loaded contains only templates of the file, each in the
+// shard and under the key text the file has it; a file of the format before the K1 repair (decimal hash keys) loads
+// into a usable cache whose entries are never looked up, and the templates are learnt again.
 
 import (
 	"bufio"
@@ -41,7 +43,7 @@ type dataMirror struct {
 	Timestamp int64
 }
 type shardMirror struct {
-	Templates map[uint32]dataMirror
+	Templates map[string]dataMirror
 }
 type diskMirror struct {
 	Cache   []*shardMirror
@@ -63,6 +65,28 @@ func tplTxt(t tplMirror) string {
 	return fmt.Sprintf("%d.%d.%d.%s.%s", t.TemplateID, t.FieldCount, t.ScopeFieldCount, specsTxt(t.FieldSpecifiers), specsTxt(t.ScopeFieldSpecifiers))
 }
 
+// keyTxt: a key text of a shard map as the line protocol carries it (hex of its octets; "-" for the empty text)
+func keyTxt(k string) string {
+	if k == "" {
+		return "-"
+	}
+	return hx([]byte(k))
+}
+
+// shardTxt: the entries of one shard map, by key text (octet order): hexkey=tpl|hexkey=tpl
+func shardTxt(m map[string]dataMirror) []string {
+	keys := make([]string, 0, len(m))
+	for k := range m {
+		keys = append(keys, k)
+	}
+	sort.Strings(keys)
+	var es []string
+	for _, k := range keys {
+		es = append(es, fmt.Sprintf("%s=%s", keyTxt(k), tplTxt(m[k].Template)))
+	}
+	return es
+}
+
 // docText: canonical text of what json.Unmarshal makes of the file ("invalid" when it reports an error)
 func docText(b []byte) string {
 	var d diskMirror
@@ -79,16 +103,7 @@ func docText(b []byte) string {
 		case len(s.Templates) == 0:
 			shards = append(shards, "E")
 		default:
-			keys := make([]int, 0, len(s.Templates))
-			for k := range s.Templates {
-				keys = append(keys, int(k))
-			}
-			sort.Ints(keys)
-			var es []string
-			for _, k := range keys {
-				es = append(es, fmt.Sprintf("%d=%s", k, tplTxt(s.Templates[uint32(k)].Template)))
-			}
-			shards = append(shards, strings.Join(es, "|"))
+			shards = append(shards, strings.Join(shardTxt(s.Templates), "|"))
 		}
 	}
 	return fmt.Sprintf("sn=%d;%s", d.ShardNo, strings.Join(shards, ","))
@@ -96,7 +111,7 @@ func docText(b []byte) string {
 
 var reTimestamp = regexp.MustCompile(`"Timestamp":-?\d+`)
 
-// listing of a real cache: sorted key=template
+// listing of a real cache: shard:hexkey=template, by shard index and key text
 func listReal(c interface{}) (string, error) {
 	// both MemCache types marshal to the same shape; go through JSON to reach the exported fields uniformly
 	b, err := json.Marshal(c)
@@ -108,25 +123,46 @@ func listReal(c interface{}) (string, error) {
 		return "", err
 	}
 	var all []string
-	m := map[int]string{}
-	var keys []int
-	for _, s := range shards {
+	for i, s := range shards {
 		if s == nil {
 			continue
 		}
-		for k, v := range s.Templates {
-			m[int(k)] = tplTxt(v.Template)
-			keys = append(keys, int(k))
+		for _, e := range shardTxt(s.Templates) {
+			all = append(all, fmt.Sprintf("%d:%s", i, e))
 		}
-	}
-	sort.Ints(keys)
-	for _, k := range keys {
-		all = append(all, fmt.Sprintf("%d=%s", k, m[k]))
 	}
 	if len(all) == 0 {
 		return "-", nil
 	}
 	return strings.Join(all, "|"), nil
+}
+
+// oldFormatFile: the cache file the code before the K1 repair would have written for the same templates: every key
+// text hex(addr||id) replaced by the decimal 32-bit FNV-1 of addr||id (same shard: the hash picks it)
+func oldFormatFile(file []byte) []byte {
+	var d struct {
+		Cache []struct {
+			Templates map[string]json.RawMessage
+		}
+		ShardNo int
+	}
+	if json.Unmarshal(file, &d) != nil {
+		return file
+	}
+	for i := range d.Cache {
+		m := map[string]json.RawMessage{}
+		for k, v := range d.Cache[i].Templates {
+			raw := unhx(k)
+			if len(raw) < 2 {
+				m[k] = v
+				continue
+			}
+			m[fmt.Sprint(fnvKey(raw[:len(raw)-2], int(raw[len(raw)-2])<<8|int(raw[len(raw)-1])))] = v
+		}
+		d.Cache[i].Templates = m
+	}
+	out, _ := json.Marshal(d)
+	return out
 }
 
 func (p *flowProto) genCacheFile(r *rand.Rand, n int, w *bufio.Writer) {
@@ -217,12 +253,33 @@ func (p *flowProto) genCacheFile(r *rand.Rand, n int, w *bufio.Writer) {
 			emitted++
 		}
 		probes()
-		// 4. corruptions
+		// 4. corruptions; what was loaded (key texts the decoders never write, entries in a shard their key does not
+		//    hash to) is sometimes dumped again: the file must hold it as it is, escaped as encoding/json escapes
 		for k := 0; k < 8; k++ {
 			cb := corruptFile(r, file)
 			fmt.Fprintf(w, "cf-load %s %s\tsubset %s file\n", p.name, docText(cb), hx(cb))
 			emitted++
 			probes()
+			if r.Intn(2) == 0 {
+				fmt.Fprintf(w, "cf-list %s\t\n", p.name)
+				fmt.Fprintf(w, "cf-dump %s\tkeep\n", p.name)
+				emitted += 2
+			}
+		}
+		// 4b. upgrade: the file the code before the K1 repair wrote for the same templates (decimal hash keys). It loads
+		//     (every entry is in the cache), no data finds its template, and after the exporters have announced again
+		//     data decodes as it did before the restart
+		if len(anns) > 0 {
+			ob := oldFormatFile(file)
+			fmt.Fprintf(w, "cf-load %s %s\toldformat %s file\n", p.name, docText(ob), hx(ob))
+			emitted++
+			probesTagged("probe-old", 6)
+			for _, a := range anns {
+				hdr, _ := p.header(r, ver)
+				fmt.Fprintf(w, "%s %s %s\t\n", p.name, hx(a.addr), hx(append(hdr, p.tplSetBytes(a.t)...)))
+				emitted++
+			}
+			probesTagged("probe-same", 6)
 		}
 		// 5. absent / empty / directory
 		fmt.Fprintf(w, "cf-load %s invalid\tfresh - absent\n", p.name)
@@ -238,7 +295,7 @@ func corruptFile(r *rand.Rand, b []byte) []byte {
 	var generic map[string]interface{}
 	json.Unmarshal(b, &generic)
 	cache, _ := generic["Cache"].([]interface{})
-	switch r.Intn(12) {
+	switch r.Intn(17) {
 	case 0:
 		generic["Cache"] = []interface{}{}
 	case 1:
@@ -277,12 +334,76 @@ func corruptFile(r *rand.Rand, b []byte) []byte {
 			c = append(c[:i], c[j:]...)
 		}
 		return c
-	case 10: // a shard's key that is not a uint32, or a wrongly typed template field
+	case 10: // a wrongly typed template field, or a key text the decoders never write
 		s := string(b)
-		if i := strings.Index(s, `"TemplateID":`); i >= 0 {
+		if i := strings.Index(s, `"TemplateID":`); i >= 0 && r.Intn(2) == 0 {
 			return []byte(s[:i] + []string{`"TemplateID":70000,"x":`, `"TemplateID":"7","x":`, `"TemplateID":-1,"x":`}[r.Intn(3)] + s[i+len(`"TemplateID":`):])
 		}
-		return []byte(strings.Replace(s, `"Templates":{`, `"Templates":{"notanumber":{},`, 1))
+		keys := []string{`"notanumber"`, `""`, `"2885243512"`, `"<a&b>"`, `"q\"\\\/"`, `"\u2028\u00e9\ud800x"`, "\"\xff\xe2\x80\"", `"\t\u0000\u007f"`, `"0A76CB63040F"`}
+		return []byte(strings.Replace(s, `"Templates":{`, `"Templates":{`+keys[r.Intn(len(keys))]+`:{},`, 1))
+	case 12, 13: // entries moved to other shards, keys renamed, duplicated under a second key
+		for tries := 0; tries < 4 && len(cache) > 1; tries++ {
+			from, _ := cache[r.Intn(len(cache))].(map[string]interface{})
+			to, _ := cache[r.Intn(len(cache))].(map[string]interface{})
+			if from == nil || to == nil {
+				continue
+			}
+			fm, _ := from["Templates"].(map[string]interface{})
+			tm, _ := to["Templates"].(map[string]interface{})
+			if tm == nil {
+				continue
+			}
+			var fks []string
+			for k := range fm {
+				fks = append(fks, k)
+			}
+			sort.Strings(fks)
+			if len(fks) == 0 {
+				continue
+			}
+			for _, k := range fks[r.Intn(len(fks)):] {
+				v := fm[k]
+				switch r.Intn(4) {
+				case 0:
+					tm[k] = v // the same key text in a second shard
+				case 1:
+					delete(fm, k)
+					tm[k] = v
+				case 2:
+					tm[strings.ToUpper(k)] = v
+				default:
+					tm[k+"00"] = v
+				}
+				break
+			}
+		}
+	case 14, 15, 16: // key texts the decoders never write, with real templates (or the zero template) as their values
+		weird := []string{"notanumber", "", "2885243512", "<a&b>", "q\"\\/", "\u2028\u00e9\ufffdx\u2029", "\t\x00\x7f\r\n\b\f", "0A76CB63040F", "\U0001f600", "k\xff\xfe", "0a76cb63040f"}
+		var donor interface{} = map[string]interface{}{}
+		for _, sh := range cache {
+			if m, _ := sh.(map[string]interface{}); m != nil {
+				if tm, _ := m["Templates"].(map[string]interface{}); len(tm) > 0 {
+					var ks []string
+					for k := range tm {
+						ks = append(ks, k)
+					}
+					sort.Strings(ks)
+					donor = tm[ks[0]]
+					break
+				}
+			}
+		}
+		for n := 1 + r.Intn(3); n > 0 && len(cache) > 0; n-- {
+			if m, _ := cache[r.Intn(len(cache))].(map[string]interface{}); m != nil {
+				if tm, _ := m["Templates"].(map[string]interface{}); tm != nil {
+					if r.Intn(3) == 0 {
+						tm[weird[r.Intn(len(weird))]] = map[string]interface{}{}
+					} else {
+						tm[weird[r.Intn(len(weird))]] = donor
+					}
+				}
+			}
+		}
 	default:
 		return []byte([]string{"null", "[]", "{}", `{"ShardNo":32}`, `{"Cache":[],"ShardNo":32}`, `{"Cache":[null,null],"ShardNo":32}`, "32", `"x"`, " "}[r.Intn(9)])
 	}
@@ -346,6 +467,12 @@ func (p *flowProto) runCacheFile(st *state, line, expect string) (string, string
 				}
 			}
 		}
+		if expect == "probe-old" {
+			// data for a template that only a file of the old format (decimal hash keys) holds: never found
+			if ln := out.line(); !strings.HasSuffix(ln, " errs=unknowntpl recs=") {
+				return ln, "fail:oldformat an entry of a cache file written before the key change was used to decode: " + clip(ln, 200)
+			}
+		}
 		return out.line(), "ok"
 	case "cf-list":
 		l, err := listReal(p.cache(st))
@@ -364,8 +491,10 @@ func (p *flowProto) runCacheFile(st *state, line, expect string) (string, string
 			return "ERR", "fail:dump " + err.Error()
 		}
 		b, _ := ioutil.ReadFile(path)
-		st.v["file"] = b
-		st.v["savedcache"] = p.cache(st)
+		if expect != "keep" { // "keep": a dump in passing; the cache saved for the restart comparisons stays
+			st.v["file"] = b
+			st.v["savedcache"] = p.cache(st)
+		}
 		// the file just written must load back to the cache it was written from
 		verdict := "ok"
 		want, _ := listReal(p.cache(st))
@@ -410,12 +539,39 @@ func (p *flowProto) loadCase(st *state, content []byte, how string, expectKind s
 		if l != "-" {
 			verdict = "fail:crashpoint a truncated / absent file loaded templates: " + clip(l, 200)
 		}
-	case "subset":
-		// only templates that the file contains (as encoding/json reads it)
-		doc := docText(content)
+	case "subset", "oldformat":
+		// only templates that the file contains (as encoding/json reads it), each in the shard and under the key text
+		// the file has it
+		var docShards []string
+		if doc := docText(content); strings.Contains(doc, ";") {
+			docShards = strings.Split(strings.SplitN(doc, ";", 2)[1], ",")
+		}
+		inDoc := map[string]bool{}
+		for i, sh := range docShards {
+			for _, e := range strings.Split(sh, "|") {
+				inDoc[fmt.Sprintf("%d:%s", i, e)] = true
+			}
+		}
+		n := 0
 		for _, e := range strings.Split(l, "|") {
-			if e != "-" && !strings.Contains(doc, e) {
-				verdict = "fail:subset loaded cache holds a template that is not in the file: " + e
+			if e == "-" {
+				continue
+			}
+			n++
+			if !inDoc[e] {
+				verdict = "fail:subset loaded cache holds an entry (shard:key=template) that is not in the file: " + e
+			}
+		}
+		if expectKind == "oldformat" {
+			// the old file is accepted: every one of its entries is in the cache (none is looked up: the probes)
+			want := 0
+			for _, sh := range docShards {
+				if sh != "N" && sh != "M" && sh != "E" {
+					want += len(strings.Split(sh, "|"))
+				}
+			}
+			if n != want || want == 0 {
+				verdict = fmt.Sprintf("fail:oldformat a cache file written before the key change was not loaded as it is: %d entries in the file, %d in the cache", want, n)
 			}
 		}
 	}
